@@ -160,7 +160,72 @@ func isSuccessReturn(r *ssa.Return) bool {
 	if !isErrorType(last.Type()) {
 		return true
 	}
-	return isNilConst(last)
+	if isNilConst(last) {
+		return true
+	}
+	// `return x, err` is a failing return only where err is known not to be nil: it was just
+	// made by an error constructor, or a test `err != nil` leads here. Otherwise (a tail call
+	// `return parse()`, an error variable handed on untested) the return may well be a success.
+	return !knownNonNilError(last, r.Block())
+}
+
+func knownNonNilError(v ssa.Value, at *ssa.BasicBlock) bool {
+	switch x := v.(type) {
+	case *ssa.MakeInterface:
+		return true // a concrete error value
+	case *ssa.Call:
+		n := calleeName(x)
+		if n == "fmt.Errorf" || n == "errors.New" {
+			return true
+		}
+		if g := callee(x); g != nil && len(g.Blocks) > 0 && g.Signature.Results().Len() == 1 {
+			// a constructor: every return of it is a concrete error
+			all := true
+			for _, rr := range returnsOf(g) {
+				if _, isMI := rr.Results[0].(*ssa.MakeInterface); !isMI {
+					if c2, isCall := rr.Results[0].(*ssa.Call); !isCall || !knownNonNilError(c2, rr.Block()) {
+						all = false
+					}
+				}
+			}
+			if all {
+				return true
+			}
+		}
+	}
+	// a dominating test of this very value
+	for _, d := range at.Parent().Blocks {
+		if len(d.Instrs) == 0 || len(d.Succs) != 2 {
+			continue
+		}
+		ifi, ok := d.Instrs[len(d.Instrs)-1].(*ssa.If)
+		if !ok {
+			continue
+		}
+		bo, ok := ifi.Cond.(*ssa.BinOp)
+		if !ok || (bo.Op != token.NEQ && bo.Op != token.EQL) {
+			continue
+		}
+		var other ssa.Value
+		if bo.X == v {
+			other = bo.Y
+		} else if bo.Y == v {
+			other = bo.X
+		} else {
+			continue
+		}
+		if !isNilConst(other) {
+			continue
+		}
+		nonNilSucc := d.Succs[0]
+		if bo.Op == token.EQL {
+			nonNilSucc = d.Succs[1]
+		}
+		if len(nonNilSucc.Preds) == 1 && (nonNilSucc == at || nonNilSucc.Dominates(at)) {
+			return true
+		}
+	}
+	return false
 }
 
 func sortStrings(s []string) { sort.Strings(s) }
